@@ -165,13 +165,23 @@ def run_loop(chk, pid):
     if pid in ("C11",):
         hr = S.writes("has_run", SELF)
         rets = [e for e in S.events if e.kind == "return" and any(p and a[0] == "fld" and a[2] == "has_run" for a, p in e.guard)]
-        ok = bool(rets) and bool(hr) and all(rets[0].seq < e.seq for e in calls) and canon(hr[0].value) == canon(sym.TRUE) and hr[0].seq < setup[0].seq
+        gated = all(sym.lit_holds(G(e), ("fld", SELF, "has_run", 0), False) for e in calls)  # everything the run does happens only when the flag was off on entry
+        ok = bool(calls) and gated and bool(hr) and canon(hr[0].value) == canon(sym.TRUE) and hr[0].seq < setup[0].seq
         chk.ob("C11.R4", ok, BACKTEST, host, "has-run-gate", "a finished backtest asked to run again returns at once; the flag is set before anything runs", where=fi.where,
                expected="if self.has_run: return; self.has_run = True; ... setup", found="%d early returns, %d flag writes" % (len(rets), len(hr)))
         # ... and stays set: nothing the run goes through (its own helpers included) turns it off again
         off = [w for w in hr if canon(w.value) != canon(sym.TRUE)]
         chk.ob("C11.R4", not off, BACKTEST, host, "has-run-stays-set", "a backtest that has run keeps its run flag set (no helper on the way resets it), so that asking again does not re-run it",
                where=off[0].where if off else fi.where, expected="only `self.has_run = True` inside run()", found="; ".join(short(w.value, 40) for w in off)[:200])
+        # ... and the module-level bt.run(*backtests) goes through that gate: it calls each backtest's public run(), never a private worker behind it
+        import ast as _ast
+        mf = chk.prog.functions.get((BACKTEST, "run"))
+        if mf is not None:
+            bk = chk.prog.classes.get("Backtest")
+            called = [n_.func.attr for n_ in _ast.walk(mf.node) if isinstance(n_, _ast.Call) and isinstance(n_.func, _ast.Attribute) and bk is not None and n_.func.attr in bk.methods]
+            chk.ob("C11.R4", "run" in called and all(m_ == "run" or not m_.startswith("_") for m_ in called), BACKTEST, "run", "module-run-goes-through-the-gate",
+                   "bt.run() runs each backtest through its own run() (which returns at once for a finished backtest), not through a private worker", where=mf.where,
+                   expected="bkt.run()", found=", ".join(called))
         sb = bound_args(setup[0], chk.prog)
         ok = setup[0].args and setup[0].args[0][0] == "fld" and setup[0].args[0][2] == "data" and canon(setup[0].args[0][1]) == canon(SELF)
         chk.ob("C11.R1", ok, BACKTEST, host, "setup-with-framed-data", "the strategy is set up with the backtest's own framed copy of the data", where=setup[0].where)
